@@ -57,7 +57,7 @@ for _k, _v in EEMS2.items():
         V2_OF[_v] = _k
 
 
-def v2_line(cmd, name, args, new_field=True, out_file=None, pos=None):
+def v2_line(cmd, name, args, new_field=True, out_file=None, pos=None, twice=False):
     """pos: (position of NewFieldName, position of OutFileName) among the arguments; None = at the end."""
     parts = ["%s = %s" % (k, c12.fmt(v)) for k, v in args]
     extra = []
@@ -65,6 +65,9 @@ def v2_line(cmd, name, args, new_field=True, out_file=None, pos=None):
         extra.append("NewFieldName = %s" % name)
     if out_file:
         extra.append('OutFileName = "%s"' % out_file)
+    if twice:
+        # an output-file argument left behind by an edit, next to the new one: both are dropped
+        extra.append('OutFileName = "old_%s"' % out_file if out_file else "NewFieldName = %s" % name)
     for k, e in enumerate(extra):
         where = len(parts) if pos is None else pos[k % len(pos)] % (len(parts) + 1)
         parts.insert(where, e)
@@ -151,7 +154,8 @@ def renderings(case, joiner=None):
         if c["cmd"] in V2_OF and (st_.get("v2", True) or c["cmd"] == "EEMSRead"):
             omit = c["cmd"] == "EEMSRead" and c["name"] in omitted
             line = v2_line(V2_OF[c["cmd"]], name, args, new_field=not omit and not st_.get("assigned"),
-                           out_file="ignored_%d.csv" % k if st_.get("out_file") else None, pos=st_.get("pos"))
+                           out_file="ignored_%d.csv" % k if st_.get("out_file") else None, pos=st_.get("pos"),
+                           twice=bool(st_.get("twice")) and (bool(st_.get("out_file")) or (not omit and not st_.get("assigned"))))
             if st_.get("assigned") and not omit:
                 line = "%s = %s" % (name, line)  # an EEMS 2.0 name used with an explicit result name
             v2_lines.append(line)
@@ -268,7 +272,8 @@ def model_cases(draw):
         "v2": st.sampled_from([True, True, True, not mixed or False]) if mixed else st.just(True),
         "omit_new_field": st.booleans(), "out_file": st.sampled_from([False, False, True]),
         "pos": st.one_of(st.none(), st.lists(st.integers(0, 6), min_size=2, max_size=2)),
-        "assigned": st.sampled_from([False, False, True]), "paren_break": st.sampled_from([0, 0, 0, 1, 2]), "same_name": st.sampled_from([False, False, True])}), min_size=3, max_size=10))
+        "assigned": st.sampled_from([False, False, True]), "paren_break": st.sampled_from([0, 0, 0, 1, 2]), "same_name": st.sampled_from([False, False, True]),
+        "twice": st.sampled_from([False, False, False, True])}), min_size=3, max_size=10))
     if draw(st.integers(0, 3)) == 0:
         for s_ in styles:  # a file in which no command is written bare
             s_["assigned"] = True
